@@ -1,6 +1,7 @@
 import PEval.Lemmas.ClassificationScore
 import PEval.Gen.ClassificationDT
 import PEval.Lemmas.ClassificationDT
+import PEval.Lemmas.ClassificationSim
 /-!
 # C11 — classification pairs objects by identity and scores them by label agreement
 
@@ -644,5 +645,78 @@ example : agree [] pairSticky (skel 0 1 2) (skel 0 1 2) PA.empty = true := by de
 example : agree [] pairSticky (skel 1 2 2) (skel 2 2 2) PA.empty = false := by decide +kernel
 
 end Table
+
+/-! ## the tables speak about ALL inputs of their shapes: relabelling invariance (`PEval/Lemmas/ClassificationSim.lean`) -/
+section TableAllInputs
+open PEval.DT PEval.ClassificationDT
+
+/-- RELABELLING INVARIANCE of the model's pairing (any list lengths): the pairing looks at the objects only through the
+equality tests between an estimate and a ground truth (uuid, frame, label), `uuid is None`, the traffic-light-frame test,
+the label family of the first estimate, and identity. A renaming `fE`, `fG` that is injective on the inputs and keeps
+those answers renames the results (or keeps the exception). -/
+theorem pairing_relabelling_invariant (uf : Bool) (fE fG : Obj → Obj) (ests gts : List Obj)
+    (hiE : InjOn fE ests) (hiG : InjOn fG gts)
+    (hu : ∀ e ∈ ests, ∀ g ∈ gts, decide ((fE e).uuid = (fG g).uuid) = decide (e.uuid = g.uuid))
+    (hfr : ∀ e ∈ ests, ∀ g ∈ gts, decide ((fE e).frame = (fG g).frame) = decide (e.frame = g.frame))
+    (hl : ∀ e ∈ ests, ∀ g ∈ gts, decide ((fE e).label = (fG g).label) = decide (e.label = g.label))
+    (hnull : ∀ e ∈ ests, ∀ g ∈ gts, nullUuid (fE e) (fG g) = nullUuid e g)
+    (htl : ∀ e ∈ ests, ((fE e).frame == camTrafficLight) = (e.frame == camTrafficLight))
+    (hfam : ∀ e ∈ ests, (fE e).label.tl = e.label.tl) :
+    objectResults false uf (ests.map fE) (gts.map fG) = mapOut fE fG (objectResults false uf ests gts) :=
+  objectResults_relabel uf fE fG ests gts hiE hiG hu hfr hl hnull htl hfam
+
+/-- BRIDGE, any list lengths: for pairwise distinct objects with non-null uuids the model's `get_object_results`, written
+as index pairs (`encodeC`: positions in the input lists, the format of the tables), is the model's algorithm on index
+objects at every valuation that answers the atoms as the objects' equality tests do -/
+theorem pairing_index_form (uf : Bool) (ests gts : List Obj) (hE : ests.Nodup) (hG : gts.Nodup)
+    (hn : ∀ o ∈ ests ++ gts, o.uuid ≠ none) (v : Val) (hv : Induces v ests gts) :
+    modelOnIndex (fOf uf ests) ests.length gts.length v = encodeC ests gts (objectResults false uf ests gts) :=
+  objectResults_eq_modelOnIndex uf ests gts hE hG hn v hv
+
+/-- every function × shape has its row in the regenerated tables -/
+theorem pair_table_rows_present :
+    ∀ f ∈ [0, 1, 2], ∀ nm ∈ shapes, (Gen.ClassificationDT.tables.any fun r => r.1 == f && r.2.1 == 3 * nm.1 + nm.2) = true := by
+  decide +kernel
+
+/-- WHAT THE CODE'S TABLES SAY ABOUT EVERY INPUT OF THEIR SHAPES (table theorem ∘ skeleton check ∘ relabelling invariance):
+for ALL lists of at most two estimates and two ground truths (a tabulated shape; pairwise distinct objects, non-null uuids;
+any uuids, frames, labels, either `uuid_matching_first`), the tables contain the row of that input, and its tree — the
+decision tree of the REAL `get_object_results` — evaluated at the valuation `valC` of the objects' equality tests, is
+exactly the model's pairing written as index pairs (results in order, each estimate with the position of its ground
+truth or unpaired; `ValueError` where the model raises it). -/
+theorem table_pairing_is_model (uf : Bool) (ests gts : List Obj) (hE : ests.Nodup) (hG : gts.Nodup)
+    (hn : ∀ o ∈ ests ++ gts, o.uuid ≠ none) (hs : (ests.length, gts.length) ∈ shapes) :
+    ∃ row ∈ Gen.ClassificationDT.tables, row.1 = fOf uf ests ∧ row.2.1 = 3 * ests.length + gts.length ∧
+      ∀ t, row.2.2 = some t → eval t (valC ests gts) = encodeC ests gts (objectResults false uf ests gts) := by
+  have hf : fOf uf ests ∈ [0, 1, 2] := by
+    cases ests with
+    | nil => simp [fOf]
+    | cons e0 es => cases h : e0.label.tl <;> cases uf <;> simp [fOf, h]
+  have hrow := pair_table_rows_present (fOf uf ests) hf (ests.length, gts.length) hs
+  obtain ⟨row, hmem, hk⟩ := List.any_eq_true.1 hrow
+  simp only [Bool.and_eq_true, beq_iff_eq] at hk
+  refine ⟨row, hmem, hk.1, hk.2, ?_⟩
+  intro t ht
+  have hm : gts.length < 3 := by
+    simp only [shapes, List.mem_cons, Prod.mk.injEq, List.not_mem_nil, or_false] at hs
+    omega
+  have h := pair_code_table_eq_model row hmem t ht (valC ests gts)
+  have h1 : (3 * ests.length + gts.length) / 3 = ests.length := by omega
+  have h2 : (3 * ests.length + gts.length) % 3 = gts.length := by omega
+  rw [hk.1, hk.2, h1, h2] at h
+  rw [h]
+  exact skel_eq_objectResults uf ests gts hE hG hn hs
+
+/-- non-vacuity: two traffic lights against two ground truths with crossed uuids, same labels — without
+`uuid_matching_first` stage 1 pairs by label in input order (digits 2 = est 0 ↔ gt 0, 6 = est 1 ↔ gt 1) -/
+example :
+    let e0 : Obj := ⟨0, some "a", ⟨true, "green"⟩, "cam0"⟩
+    let e1 : Obj := ⟨1, some "b", ⟨true, "green"⟩, "cam0"⟩
+    let g0 : Obj := ⟨2, some "b", ⟨true, "green"⟩, "cam0"⟩
+    let g1 : Obj := ⟨3, some "a", ⟨true, "green"⟩, "cam0"⟩
+    encodeC [e0, e1] [g0, g1] (objectResults false false [e0, e1] [g0, g1]) = .other 62 ∧
+    encodeC [e0, e1] [g0, g1] (objectResults false true [e0, e1] [g0, g1]) = .other 53 := by decide +kernel
+
+end TableAllInputs
 
 end PEval.C11
